@@ -285,3 +285,21 @@ package ingest
 //@   ensures (result1 != nil) == failed
 //@   ensures implies(result1 == nil, okCalls == len(*a) && calls == len(*a))
 //@   ensures implies(result1 != nil, calls == okCalls + 1)
+
+// ---- C38: clones share no slice with their source, for features of every size --------------
+//@ func (*RelationFeature).CloneRelationFeature
+//@   requires r != nil
+//@   loop 1 invariant rangeindex >= -1 && clone != nil && fresh(clone) && fresh(clone.Members) && len(clone.Members) == len(r.Members)
+//@   loop 1 invariant forall(j, 0, rangeindex+1, clone.Members[j] == r.Members[j])
+//@   ensures result != nil && fresh(result) && fresh(result.Members) && fresh(result.Tags)
+//@   ensures len(result.Members) == len(r.Members) && len(result.Tags) == len(r.Tags) && result.RelationID == r.RelationID
+//@   ensures forall(j, 0, len(r.Members), result.Members[j] == r.Members[j])
+//@   ensures forall(j, 0, len(r.Tags), result.Tags[j] == r.Tags[j], r.Tags[j].Key)
+
+//@ func (*AreaMembers).Clone
+//@   requires a != nil
+//@   loop 1 invariant rangeindex >= -1 && fresh(clone.ids) && len(clone.ids) == len(a.ids) && fresh(clone.polygons) && len(clone.polygons) == len(a.polygons)
+//@   loop 1 invariant forall(j, 0, rangeindex+1, implies(!isnil(a.ids[j]), fresh(clone.ids[j]) && len(clone.ids[j]) == len(a.ids[j])))
+//@   ensures fresh(result.ids) && len(result.ids) == len(a.ids) && fresh(result.polygons) && len(result.polygons) == len(a.polygons)
+//@   ensures forall(j, 0, len(a.ids), implies(!isnil(a.ids[j]), fresh(result.ids[j]) && len(result.ids[j]) == len(a.ids[j])))
+//@   ensures forall(j, 0, len(a.polygons), result.polygons[j] == a.polygons[j])
